@@ -1039,6 +1039,8 @@ class Wtp:
         need_pre_expand=excluded.need_pre_expand, model=excluded.model""",
             (title, namespace_id, body, redirect_to, need_pre_expand, model),
         )
+        # get_page() is memoized; drop entries made stale by this write
+        self.get_page.cache_clear()
 
     def analyze_templates(
         self,
